@@ -1,11 +1,14 @@
 package t0073
 
 type G1 struct {
+	F0x0 *int32
+}
+
+type G2 struct {
 	F1x0 *int64
 }
 
 type T struct {
-	F0 int32
-	F1 *G1
-	F2 *float32
+	F0 G1
+	F1 *G2
 }
